@@ -20,6 +20,8 @@ import Wz.Gen.InstrGroups
 import Wz.Proofs.C01_groups
 import Wz.Model.CalleeSaved
 import Wz.Gen.RegSaved
+import Wz.Model.ParMove
+import Wz.Gen.BlockArgs
 
 namespace Wz.C01
 open Wz.Spec Wz.Spec.Wasm Wz.Model.InterpStraight
@@ -259,6 +261,29 @@ theorem every_inserted_register_write_is_recorded :
     Wz.Gen.RegSaved.writes.all (fun w => w.2.2.2) = true ∧
     (Wz.Gen.RegSaved.writes.filter (fun w => w.2.1 == "SwapBefore")).length = 3 ∧
     5 ≤ Wz.Gen.RegSaved.writes.length := by decide
+
+/-! ### block arguments are a parallel assignment -/
+
+/-- **Sequential moves implement the parallel assignment** whenever `lowerBlockArguments`' test holds: no
+destination register is a source register of any edge (earlier OR later) - for every edge list with distinct
+destinations (block parameters) and every register file. -/
+theorem block_arguments_sequential_moves_sound (es : List (Nat × Nat)) (ρ : Wz.Model.ParMove.Env)
+    (hs : Wz.Model.ParMove.separated es = true) (hd : Wz.Model.ParMove.distinctDsts es) :
+    Wz.Model.ParMove.seqMoves es ρ = Wz.Model.ParMove.parMoves es ρ :=
+  Wz.Model.ParMove.seq_eq_par es ρ hs hd
+
+/-- The test must look at ALL sources: `prev := cur; cur := new`, as edges (source, destination) `[(new, cur), (cur, prev)]`
+- destination `cur` of the first edge is the source of a LATER edge; moved one after the other `prev` receives
+the new value (the shape of a seeded change that tested each destination only against the sources seen so far). -/
+theorem block_arguments_later_source_witness :
+    let ρ : Wz.Model.ParMove.Env := fun r => [16, 5, 0].getD r 0   -- r0 = new value, r1 = cur, r2 = prev
+    Wz.Model.ParMove.separated [(0, 1), (1, 2)] = false ∧
+    Wz.Model.ParMove.seqMoves [(0, 1), (1, 2)] ρ 2 = 16 ∧ Wz.Model.ParMove.parMoves [(0, 1), (1, 2)] ρ 2 = 5 := by decide
+
+/-- **Regenerated obligation** (backend/compiler_lower.go): `lowerBlockArguments` first marks the sources of all
+edges, then - in a separate loop - tests every destination against that complete set, then emits the moves. -/
+theorem block_arguments_test_sees_all_sources :
+    Wz.Gen.BlockArgs.phases = ["mark", "test", "move", "move", "move"] := by decide
 
 /-! ### the reference semantics -/
 
